@@ -77,9 +77,13 @@ pub enum Hostile {
     /// the shred is right in every respect except that its signature was made with a key that is
     /// not the leader's (over exactly the commitment the leader signed)
     ShredOtherKey,
+    /// the genuine proof of a (last-)slice-root answer continued upwards with the canonical
+    /// empty-subtree roots to 33 / 40 entries (taller than any tree the code supports)
+    OverlongCanonicalProof,
 }
 
-pub const ALL_HOSTILE: [Hostile; 14] = [
+pub const ALL_HOSTILE: [Hostile; 15] = [
+    Hostile::OverlongCanonicalProof,
     Hostile::ShredOtherKey,
     Hostile::NackReplay,
     Hostile::Nack,
@@ -383,6 +387,20 @@ fn run_history_env(fx: &Fixture, deviations: &BTreeMap<usize, Hostile>, env: Env
                                 MResponse::LastSliceRoot(a, _, c, p) => vec![MResponse::LastSliceRoot(a, 1023, c, p)],
                                 other => vec![other],
                             },
+                            (Hostile::OverlongCanonicalProof, Some(m)) => {
+                                let extend = |p: &Vec<[u8; 32]>, to: usize| -> Vec<[u8; 32]> {
+                                    let mut q = p.clone();
+                                    while q.len() < to {
+                                        q.push(crate::c15::empty_root_bytes(q.len()));
+                                    }
+                                    q
+                                };
+                                match m {
+                                    MResponse::LastSliceRoot(a, i, c, p) => vec![MResponse::LastSliceRoot(a.clone(), i, c, extend(&p, 33)), MResponse::LastSliceRoot(a, i, c, extend(&p, 40))],
+                                    MResponse::SliceRoot(a, c, p) => vec![MResponse::SliceRoot(a.clone(), c, extend(&p, 33)), MResponse::SliceRoot(a, c, extend(&p, 40))],
+                                    other => vec![other],
+                                }
+                            }
                             (Hostile::ShredOtherKey, Some(m)) => match (&t, m) {
                                 (MReqType::Shred(_, sl, _), MResponse::Shred(a, mut s)) => { s.sig = fx.other_key_sig[*sl as usize]; vec![MResponse::Shred(a, s)] }
                                 (_, other) => vec![other],
@@ -616,6 +634,39 @@ fn responder_sweep(report: &Report, fx: &Fixture) -> usize {
         });
     }
     cases
+}
+
+/// C10 through the repair path: a real `Repair` instance with outstanding requests gets every hostile
+/// answer kind at the metadata requests and the first shred requests; whatever the answer, the
+/// repair task must survive (a dead repair loop also takes the message loop down with its next use).
+pub fn c10_repair_crash_probe(report: &Report, tier: Tier) -> usize {
+    let mut runs = 0;
+    for nslices in tier.pick(vec![1usize, 2], vec![1, 2, 3]) {
+        let fx = fixture(nslices);
+        let positions: Vec<usize> = vec![1, 2, 1 + nslices, 2 + nslices, 3 + nslices];
+        let mut histories: Vec<BTreeMap<usize, Hostile>> = Vec::new();
+        for p in &positions {
+            for h in ALL_HOSTILE {
+                histories.push([(*p, h)].into_iter().collect());
+            }
+        }
+        let outcomes: Vec<(BTreeMap<usize, Hostile>, Outcome)> = histories.into_par_iter().map(|d| { let o = run_history(&fx, &d); (d, o) }).collect();
+        for (d, o) in outcomes {
+            runs += 1;
+            let (p, h) = d.iter().next().map(|(p, h)| (*p, *h)).unwrap();
+            let replay = json!({"oracle": "repair-crash-probe", "slices": nslices, "hostile": format!("{h:?}#{p}")});
+            let died = o.panic.is_some() || !o.task_alive;
+            if died {
+                let msgs = crate::common::take_panics();
+                report.violation(
+                    format!("C10:repair-task-dies-on-hostile-answer:{h:?}"),
+                    format!("{nslices}-slice block under repair, request #{p} answered with {h:?}: the repair task is gone ({:.160})", o.panic.clone().or_else(|| msgs.first().cloned()).unwrap_or_default()),
+                    replay,
+                );
+            }
+        }
+    }
+    runs
 }
 
 /// C12 through the repair path: shreds that are right in everything but the signature (one bit
